@@ -74,4 +74,33 @@ def map32Descriptor (dm : Nat → Nat) (nChunks : Nat) (a : Nat) : Nat :=
   let i := a >>> logBytesInChunk
   if i < nChunks then dm i else 0
 
+/-! ## The chunk-granular SFT map of the non-contiguous layouts (`sparse_chunk_map::SFTSparseChunkMap`)
+
+One entry per chunk of the architecture's address space (`vm_layout().max_chunks()`); the table is
+given as a function chunk index ↦ space (`0` = `EMPTY_SPACE_SFT`). -/
+
+/-- `SFTSparseChunkMap::has_sft_entry(addr)`: `addr.chunk_index() < vm_layout().max_chunks()`. -/
+def sparseHasEntry (nChunks a : Nat) : Bool := a >>> logBytesInChunk < nChunks
+
+/-- `SFTSparseChunkMap::get_checked(addr)`: the entry of the address's chunk, the empty SFT (`0`) for an
+address without an entry. -/
+def sparseGetChecked (sft : Nat → Nat) (nChunks a : Nat) : Nat :=
+  if sparseHasEntry nChunks a then sft (a >>> logBytesInChunk) else 0
+
+/-- `memory_manager::is_in_mmtk_spaces(object)` = `SFT_MAP.get_checked(addr).is_in_space(object)`:
+`false` for the empty SFT, `true` for every policy that keeps the default `SFT::is_in_space`. -/
+def isInMmtkSpaces (sft : Nat → Nat) (nChunks a : Nat) : Bool := sparseGetChecked sft nChunks a != 0
+
+/-- A region of a discontiguous space as the page resource / VM map see it. -/
+structure Region where
+  start : Nat      -- first chunk index
+  chunks : Nat
+  owner : Nat      -- raw descriptor of the owning space
+deriving Repr, DecidableEq
+
+/-- The descriptor table a `Map32` holds after `allocate_contiguous_chunks` for each region of `rs`
+(`Map32::insert` writes the descriptor into every chunk of the region; later regions are written later). -/
+def tableOf (rs : List Region) : Nat → Nat :=
+  rs.foldl (fun t r => fun c => if r.start ≤ c ∧ c < r.start + r.chunks then r.owner else t c) (fun _ => 0)
+
 end Mmtk.Resolve
